@@ -76,16 +76,39 @@ def _run_item(args):
     return r
 
 
-def run_pool(fn, items, procs=None, budget_s=None):
-    """Runs fn(item)->WorkResult over items in a fork pool.  Stops handing out
-    new items after budget_s; returns (results, n_skipped)."""
+def _worker_loop(fn, conn):
+    import signal
+    signal.signal(signal.SIGINT, signal.SIG_IGN)
+    while True:
+        try:
+            msg = conn.recv()
+        except EOFError:
+            return
+        if msg is None:
+            return
+        idx, item = msg
+        r = _run_item((fn, item, idx))
+        try:
+            conn.send((idx, r))
+        except Exception as ex:      # unpicklable result
+            rr = WorkResult(str(idx))
+            rr.error = 'result not transferable: %s' % ex
+            conn.send((idx, rr))
+
+
+def run_pool(fn, items, procs=None, budget_s=None, hard_item_s=None):
+    """Runs fn(item)->WorkResult over items in forked worker processes.  Stops
+    handing out new items after budget_s.  A worker that dies or exceeds
+    hard_item_s is replaced and its item reported as a worker error (never a
+    silent loss).  Returns (results, n_skipped)."""
+    from multiprocessing.connection import wait
     procs = procs or min(16, os.cpu_count() or 4)
     if os.environ.get('VERIF_PROCS'):
         procs = int(os.environ['VERIF_PROCS'])
-    results = []
+    hard_item_s = hard_item_s or max(240, (budget_s or 0) * 2)
     t0 = time.time()
-    skipped = 0
     if procs <= 1 or len(items) <= 1:
+        results, skipped = [], 0
         for i, it in enumerate(items):
             if budget_s and time.time() - t0 > budget_s:
                 skipped += 1
@@ -93,29 +116,78 @@ def run_pool(fn, items, procs=None, budget_s=None):
             results.append(_run_item((fn, it, i)))
         return results, skipped
     ctx = mp.get_context('fork')
-    with ctx.Pool(procs, maxtasksperchild=200) as pool:
-        pending = []
-        it = iter(enumerate(items))
-        done_iter = False
-        # simple windowed submission so that the budget can stop the hand-out
-        import collections
-        window = collections.deque()
-        while True:
-            while not done_iter and len(window) < procs * 3:
+    procs = min(procs, len(items))
+    workers = {}            # conn -> [process, current idx or None, started]
+
+    def spawn():
+        parent, child = ctx.Pipe()
+        p = ctx.Process(target=_worker_loop, args=(fn, child), daemon=True)
+        p.start()
+        child.close()
+        workers[parent] = [p, None, 0.0]
+        return parent
+
+    def label(i):
+        it = items[i]
+        c = it.get('case') if isinstance(it, dict) else None
+        return getattr(c, 'tag', None) or repr(it)[:120]
+    for _ in range(procs):
+        spawn()
+    results = []
+    nxt = 0
+    skipped = 0
+    n = len(items)
+    stop_handing = False
+    while True:
+        for conn, w in list(workers.items()):
+            if w[1] is None and not stop_handing and nxt < n:
                 if budget_s and time.time() - t0 > budget_s:
-                    rest = sum(1 for _ in it)
-                    skipped += rest
-                    done_iter = True
+                    stop_handing = True
+                    skipped = n - nxt
                     break
                 try:
-                    i, item = next(it)
-                except StopIteration:
-                    done_iter = True
-                    break
-                window.append(pool.apply_async(_run_item, ((fn, item, i),)))
-            if not window:
+                    conn.send((nxt, items[nxt]))
+                    w[1], w[2] = nxt, time.time()
+                    nxt += 1
+                except (BrokenPipeError, OSError):
+                    workers.pop(conn)
+                    spawn()
+        busy = [c for c, w in workers.items() if w[1] is not None]
+        if not busy:
+            if nxt >= n or stop_handing:
                 break
-            results.append(window.popleft().get())
+            continue
+        ready = wait(busy, timeout=2.0)
+        for conn in ready:
+            w = workers[conn]
+            try:
+                idx, r = conn.recv()
+                results.append(r)
+                w[1] = None
+            except (EOFError, OSError):
+                r = WorkResult(label(w[1]))
+                r.error = 'worker process died while running this item (exit code %s)' % w[0].exitcode
+                results.append(r)
+                workers.pop(conn)
+                spawn()
+        now = time.time()
+        for conn, w in list(workers.items()):
+            if w[1] is not None and now - w[2] > hard_item_s:
+                r = WorkResult(label(w[1]))
+                r.error = 'worker exceeded the hard limit of %ds on this item and was killed' % hard_item_s
+                results.append(r)
+                w[0].kill()
+                workers.pop(conn)
+                spawn()
+    for conn, w in workers.items():
+        try:
+            conn.send(None)
+        except Exception:
+            pass
+    for conn, w in workers.items():
+        w[0].join(timeout=2)
+        if w[0].is_alive():
+            w[0].kill()
     return results, skipped
 
 
@@ -136,6 +208,7 @@ def finish(prop, tier, seed, level, results, skipped, rule, assumptions, bounds,
     exhaustive = skipped == 0
     oob = 0
     nontrivial = 0
+    slow = []
     for r in results:
         stats.merge(r.stats)
         viols.extend(r.violations)
@@ -151,6 +224,7 @@ def finish(prop, tier, seed, level, results, skipped, rule, assumptions, bounds,
         nontrivial += r.nontrivial
         if r.error:
             errors.append((r.label, r.error))
+        slow.append((r.extra.get('wall_s', 0), r.label))
 
     known = [k for k in load_known() if k.get('property') == prop and k.get('status') == 'known']
     reported, known_hits, unreproduced = [], {}, []
@@ -224,6 +298,7 @@ def finish(prop, tier, seed, level, results, skipped, rule, assumptions, bounds,
         'violations_reported': [v['sig'] for v in reported],
         'unreproduced_counterexamples': len(unreproduced),
         'worker_errors': len(errors),
+        'slowest_items': [[w, l] for w, l in sorted(slow, reverse=True)[:5]],
     }
     if extra_cov:
         cov.update(jsonable(extra_cov))
